@@ -5,13 +5,14 @@
    scanner (C17), for move_p (its relocation loop finishes within 2 * entries + 2 iterations in every
    well-formed state) and for remove_all (its depth-first worklist finishes within 2 * entries + 2
    iterations in every well-formed state, the root included) and for the traversal when links are not
-   followed (at most three machine steps per entry).  PARTIAL: for a traversal that follows links (and
-   copy / chmod / chown when asked to follow) the fuel bound is exercised (a HANG outcome in the
-   transcripts would be a mismatch), not proved. *)
+   followed (at most three machine steps per entry) - hence for EVERY call of the alphabet that does not
+   ask to follow links (step_terminates: listings, entries, copy, chmod, chown, mkfile_m included).
+   PARTIAL: for a traversal that follows links (entries / copy / chmod / chown with follow) the fuel
+   bound is exercised (a HANG outcome in the transcripts would be a mismatch), not proved. *)
 From stdpp Require Import gmap.
 From Coq Require Import NArith.
 From RV Require Import Base.Str Path.Clean Path.CleanFacts Path.Helpers Path.Expand Path.ExpandFacts
-  Memfs.State Memfs.Ops Memfs.Walk Memfs.WalkFacts Memfs.Step Memfs.Wf Memfs.ContentFacts Memfs.WfMove Memfs.RemoveAll Memfs.WalkSpec Memfs.WalkTerm Memfs.WalkExact.
+  Memfs.State Memfs.Ops Memfs.Walk Memfs.WalkFacts Memfs.Step Memfs.Wf Memfs.ContentFacts Memfs.WfMove Memfs.RemoveAll Memfs.WalkSpec Memfs.WalkTerm Memfs.WalkExact Memfs.Terminates.
 
 Theorem C12_step_no_panic : forall env m o, step env m o <> Panic.
 Proof. exact step_no_panic. Qed.
@@ -41,6 +42,11 @@ Theorem C12_walk_nofollow_terminates : forall m o pre rootp, WF m -> o_follow o 
   walk (m_ents m) o pre rootp <> inl OutOfFuel.
 Proof. exact walk_nofollow_wf. Qed.
 Print Assumptions C12_walk_nofollow_terminates.
+
+(* every call that does not ask to follow links finishes within its fuel *)
+Theorem C12_step_terminates : forall env m o, WF m -> follows o = false -> step env m o <> OutOfFuel.
+Proof. exact step_terminates. Qed.
+Print Assumptions C12_step_terminates.
 
 Theorem C12_clean_total : forall s, clean s <> Panic /\ clean s <> OutOfFuel.
 Proof. exact clean_total. Qed.
